@@ -9,6 +9,7 @@ mod c03;
 mod c07;
 mod c04;
 mod c05;
+mod c16;
 
 fn main() {
     std::panic::set_hook(Box::new(|_| {}));
@@ -28,6 +29,7 @@ fn main() {
         "c07" => c07::run(tier, seed, &mut out),
         "c04" => c04::run(tier, seed, &mut out),
         "c05" => c05::run(tier, seed, &mut out),
+        "c16" => c16::run(tier, seed, &mut out),
         _ => {
             eprintln!("unknown family {}", fam);
             std::process::exit(2);
